@@ -629,10 +629,20 @@ theorem conjOf_sem (J : Interp) (ρ : Asg) (brk : Bool) (a : SAnn) :
 
 /-! ## the pipeline for a task that compares two programs, without placeholders and outline -/
 
+/-- the output predicates that the program does not mention are empty -/
+def OutputsEmpty (t : ExternalTask) (p : Program) (T : PredI) : Prop :=
+  ∀ q ∈ missingOutputs t p, ∀ ds : List Dom, ds.length = q.arity → ¬ T q.symbol ds
+
+theorem emptyDefs_sat (t : ExternalTask) (p : Program) (J : Interp) (ρ : Asg) :
+    (∀ F ∈ (missingOutputs t p).map (fun q => completeDefinition (atomFromPred q) []), sat J F ρ) ↔
+      OutputsEmpty t p J.pred := by
+  simp only [List.mem_map, forall_exists_index, and_imp, forall_apply_eq_imp_iff₂, OutputsEmpty]
+  exact forall_congr' fun q => imp_congr_right fun _ => emptyDefinition_sem J.pred J.fc q ρ
+
 theorem theoryTranslate_ok (t : ExternalTask) (fuel : Nat) (p : Program) (th : Theory)
     (h : theoryTranslate t [] fuel p = .ok th) :
     globalsPanic p = false ∧ ∃ Γ, completion (tauStar p) t.userGuide.inputs = some Γ ∧
-      ∀ (J : Interp) (ρ : Asg), (∀ F ∈ th, sat J F ρ) ↔ ∀ F ∈ Γ, sat J F ρ := by
+      ∀ (J : Interp) (ρ : Asg), (∀ F ∈ th, sat J F ρ) ↔ (∀ F ∈ Γ, sat J F ρ) ∧ OutputsEmpty t p J.pred := by
   unfold theoryTranslate at h
   split at h
   · cases h
@@ -647,17 +657,21 @@ theorem theoryTranslate_ok (t : ExternalTask) (fuel : Nat) (p : Program) (th : T
     | some Γ =>
       simp only [hc] at h
       refine ⟨Γ, rfl, fun J ρ => ?_⟩
+      have hsplit : (∀ F ∈ Γ ++ (missingOutputs t p).map (fun q => completeDefinition (atomFromPred q) []), sat J F ρ) ↔
+          (∀ F ∈ Γ, sat J F ρ) ∧ OutputsEmpty t p J.pred := by
+        rw [List.forall_mem_append, emptyDefs_sat]
       split at h
-      · cases hs : simplifyTheory .classic fuel Γ with
+      · cases hs : simplifyTheory .classic fuel (Γ ++ (missingOutputs t p).map (fun q => completeDefinition (atomFromPred q) [])) with
         | none => simp [hs] at h
         | some th' =>
           simp only [hs] at h
           injection h with h
           subst h
           rw [simplifyTheory_some hs, allTrue_simplify_classic]
+          exact hsplit
       · injection h with h
         subst h
-        exact Iff.rfl
+        exact hsplit
 
 theorem ugAss_fold (ug : UserGuide) : ∀ (l : List SAnn) (acc : List SAnn) (res : List SAnn),
     l.foldl (ugAssStep ug []) (.ok acc) = .ok res → res = acc ++ l.filter (fun f => f.role = .assumption) := by
@@ -802,222 +816,5 @@ theorem side_allTrue (J : Interp) (ρ : Asg) (l : List SAnn) (hu : UnivSA l) :
     rcases (hu a ha).2 with hr | hr
     · exact h2 a ha hr
     · exact h1 a ha hr
-
-/-- **C02, restricted form**: a task that compares two programs (no placeholders, no proof outline,
-    tightness not bypassed). Some emitted problem is refuted by a classical interpretation `J` iff `J`
-    satisfies the user-guide assumptions and, in a requested direction, is a stable model of one
-    program (read on that program's vocabulary, with `J`'s own input facts) and satisfies the
-    completed definitions of the other program's private predicates without being a stable model of
-    that program. (Uniqueness of the private extents, which turns the last clause into "the other
-    program cannot produce `J`'s public part", is not part of this theorem.) -/
-theorem external_refutes_programs (t : ExternalTask) (PL : Program) (hspec : t.specification = .inl PL)
-    (hph : t.userGuide.placeholders = []) (hpo : t.proofOutline = []) (hbyp : t.bypassTightness = false)
-    (fuel : Nat) (ps : List Problem) (h : externalProblems t fuel = .ok ps) :
-    ∃ ΓL ΓR, theoryTranslate t [] fuel PL = .ok ΓL ∧ theoryTranslate t [] fuel t.program = .ok ΓR ∧
-      (NoSymbolConflictExt t ΓL ΓR → ∀ (J : Interp) (ρ : Asg),
-        ((∃ P ∈ ps, Refutes J ρ P) ↔
-          (∀ a ∈ t.userGuide.formulas, a.role = .assumption → sat J a.formula ρ) ∧
-          (((t.direction = .universal ∨ t.direction = .forward) ∧
-              Stable PL t.userGuide.inputs (restrictTo (ext PL.preds t.userGuide.inputs) J.pred) J.fc ∧
-              (∀ a ∈ rightSide t ΓR, a.role = .assumption → sat J a.formula ρ) ∧
-              ¬ Stable t.program t.userGuide.inputs
-                (restrictTo (ext t.program.preds t.userGuide.inputs)
-                  (renamedInterp (t.specPrivate.filter (· ∈ t.progPrivate)) J.pred)) J.fc) ∨
-           ((t.direction = .universal ∨ t.direction = .backward) ∧
-              Stable t.program t.userGuide.inputs
-                (restrictTo (ext t.program.preds t.userGuide.inputs)
-                  (renamedInterp (t.specPrivate.filter (· ∈ t.progPrivate)) J.pred)) J.fc ∧
-              (∀ a ∈ leftSide t ΓL, a.role = .assumption → sat J a.formula ρ) ∧
-              ¬ Stable PL t.userGuide.inputs (restrictTo (ext PL.preds t.userGuide.inputs) J.pred) J.fc)))) := by
-  obtain ⟨hpre, ΓL, ΓR, hL, hR, hps⟩ := externalProblems_programs t PL hspec hph hpo fuel ps h
-  refine ⟨ΓL, ΓR, hL, hR, fun hnc J ρ => ?_⟩
-  obtain ⟨hncF, hncB⟩ := hnc
-  -- applicability facts
-  obtain ⟨hperr, hlerr⟩ := precheck_programs t PL hspec hpre
-  obtain ⟨htR, _, hinsR⟩ := C11.programError_none hperr
-  obtain ⟨htL, _, hinsL⟩ := C11.programError_none hlerr
-  have htR' : isTight t.program = true := htR.resolve_right (by simp [hbyp])
-  have htL' : isTight PL = true := htL.resolve_right (by simp [hbyp])
-  obtain ⟨hpL, ΓL0, hcL, hsemL⟩ := theoryTranslate_ok t fuel PL ΓL hL
-  obtain ⟨hpR, ΓR0, hcR, hsemR⟩ := theoryTranslate_ok t fuel t.program ΓR hR
-  -- the two sides
-  have huL : UnivSA (leftSide t ΓL) := fun a ha => ((controlTranslate_spec _ ΓL).1 a ha).2
-  have huR := rightSide_univ t ΓR
-  have hStL : (∀ a ∈ leftSide t ΓL, sat J a.formula ρ) ↔
-      Stable PL t.userGuide.inputs (restrictTo (ext PL.preds t.userGuide.inputs) J.pred) J.fc := by
-    rw [← completion_stable PL _ htL' hpL hinsL ΓL0 hcL J.pred J.fc ρ, ← hsemL ⟨J.pred, J.fc⟩ ρ]
-    constructor
-    · intro hh F hF
-      obtain ⟨a, ha, rfl⟩ := (controlTranslate_spec _ ΓL).2 F hF
-      exact hh a ha
-    · intro hh a ha
-      exact hh _ ((controlTranslate_spec _ ΓL).1 a ha).1
-  have hStR : (∀ a ∈ rightSide t ΓR, sat J a.formula ρ) ↔
-      Stable t.program t.userGuide.inputs (restrictTo (ext t.program.preds t.userGuide.inputs)
-        (renamedInterp (t.specPrivate.filter (· ∈ t.progPrivate)) J.pred)) J.fc := by
-    rw [← completion_stable t.program _ htR' hpR hinsR ΓR0 hcR _ J.fc ρ,
-      ← hsemR ⟨renamedInterp (t.specPrivate.filter (· ∈ t.progPrivate)) J.pred, J.fc⟩ ρ]
-    unfold rightSide
-    simp only [List.mem_map, forall_exists_index, and_imp, forall_apply_eq_imp_iff₂]
-    constructor
-    · intro hh F hF
-      obtain ⟨a, ha, rfl⟩ := (controlTranslate_spec _ ΓR).2 F hF
-      exact (sat_renamePreds _ J.pred J.fc a.formula ρ).mp (hh a ha)
-    · intro hh a ha
-      exact (sat_renamePreds _ J.pred J.fc a.formula ρ).mpr (hh _ ((controlTranslate_spec _ ΓR).1 a ha).1)
-  -- conjectures of a side
-  have hconj : ∀ (l : List SAnn), (∀ c ∈ (l.filter isSpec).flatMap (conjOf t.breakEq), c.role = .conjecture →
-      sat J c.formula ρ) ↔ ∀ a ∈ l, a.role = .spec → sat J a.formula ρ := by
-    intro l
-    simp only [List.mem_flatMap, List.mem_filter, forall_exists_index, and_imp]
-    constructor
-    · intro hh a ha hr
-      refine ((conjOf_sem J ρ t.breakEq a).2).mp fun c hc => ?_
-      exact hh c a ha (by simp [isSpec, hr]) hc ((conjOf_sem J ρ t.breakEq a).1 c hc)
-    · intro hh c a ha hs hc _
-      exact ((conjOf_sem J ρ t.breakEq a).2).mpr (hh a ha (by simpa [isSpec] using hs)) c hc
-  have hnoconj : ∀ (l : List AnnF), (∀ a ∈ l, a.role = .axiom) →
-      (∀ a ∈ l, a.role = .conjecture → sat J a.formula ρ) := by
-    intro l hl a ha hr
-    rw [hl a ha] at hr; cases hr
-  have hnoax : ∀ (l : List SAnn), ∀ c ∈ (l.filter isSpec).flatMap (conjOf t.breakEq), c.role = .axiom →
-      sat J c.formula ρ := by
-    intro l c hc hr
-    simp only [List.mem_flatMap] at hc
-    obtain ⟨a, _, hc⟩ := hc
-    rw [(conjOf_sem J ρ t.breakEq a).1 c hc] at hr; cases hr
-  have haxmap : ∀ (l : List SAnn), (∀ a ∈ l.map (·.toProblem .axiom), a.role = .axiom → sat J a.formula ρ) ↔
-      ∀ a ∈ l, sat J a.formula ρ := by
-    intro l
-    simp [SAnn.toProblem]
-  have haxroles : ∀ (l : List SAnn), ∀ a ∈ l.map (·.toProblem .axiom), a.role = .axiom := by
-    intro l a ha
-    obtain ⟨a0, _, rfl⟩ := List.mem_map.mp ha
-    rfl
-  have hfilt : ∀ (l : List SAnn) (p : SAnn → Bool) (r : SRole), (∀ a, p a = true ↔ a.role = r) →
-      ((∀ a ∈ l.filter p, sat J a.formula ρ) ↔ ∀ a ∈ l, a.role = r → sat J a.formula ρ) := by
-    intro l p r hp
-    simp only [List.mem_filter, and_imp]
-    exact forall_congr' fun a => imp_congr_right fun _ => by rw [hp a]
-  have hisA : ∀ a : SAnn, isAss a = true ↔ a.role = .assumption := fun a => by simp [isAss]
-  have hisS : ∀ a : SAnn, isSpec a = true ↔ a.role = .spec := fun a => by simp [isSpec]
-  -- the two families
-  have hF := mk_refutes J ρ "forward_problem" _ t.decomposition hncF
-  have hB := mk_refutes J ρ "backward_problem" _ t.decomposition hncB
-  have hsplitL := side_allTrue J ρ (leftSide t ΓL) huL
-  have hsplitR := side_allTrue J ρ (rightSide t ΓR) huR
-  -- the user-guide assumptions, as they appear in `stable`
-  have hug : (∀ a ∈ (t.userGuide.formulas.filter fun f => f.role = .assumption), sat J a.formula ρ) ↔
-      ∀ a ∈ t.userGuide.formulas, a.role = .assumption → sat J a.formula ρ := by
-    simp only [List.mem_filter, decide_eq_true_eq, and_imp]
-  have hstable : (∀ a ∈ (assembledPrograms t ΓL ΓR).stable, a.role = .axiom → sat J a.formula ρ) ↔
-      (∀ a ∈ t.userGuide.formulas, a.role = .assumption → sat J a.formula ρ) ∧
-      (∀ a ∈ leftSide t ΓL, a.role = .assumption → sat J a.formula ρ) ∧
-      (∀ a ∈ rightSide t ΓR, a.role = .assumption → sat J a.formula ρ) := by
-    unfold assembledPrograms
-    simp only [List.forall_mem_append, haxmap, hfilt _ _ _ hisA, hug, and_assoc]
-    rfl
-  have hstableC : ∀ a ∈ (assembledPrograms t ΓL ΓR).stable, a.role = .conjecture → sat J a.formula ρ := by
-    apply hnoconj
-    unfold assembledPrograms
-    simp only [List.forall_mem_append]
-    exact ⟨⟨haxroles _, haxroles _⟩, haxroles _⟩
-  have famF : (∃ P ∈ (mkProblem "forward_problem" [(assembledPrograms t ΓL ΓR).stable,
-        (assembledPrograms t ΓL ΓR).fwdPremises, [], (assembledPrograms t ΓL ΓR).fwdConclusions]).decompose
-        t.decomposition, Refutes J ρ P) ↔
-      (∀ a ∈ t.userGuide.formulas, a.role = .assumption → sat J a.formula ρ) ∧
-      Stable PL t.userGuide.inputs (restrictTo (ext PL.preds t.userGuide.inputs) J.pred) J.fc ∧
-      (∀ a ∈ rightSide t ΓR, a.role = .assumption → sat J a.formula ρ) ∧
-      ¬ Stable t.program t.userGuide.inputs (restrictTo (ext t.program.preds t.userGuide.inputs)
-        (renamedInterp (t.specPrivate.filter (· ∈ t.progPrivate)) J.pred)) J.fc := by
-    rw [hF]
-    simp only [List.forall_mem_cons, List.not_mem_nil, false_imp_iff, implies_true, and_true, true_and]
-    rw [hstable]
-    have h1 : (∀ a ∈ (assembledPrograms t ΓL ΓR).fwdPremises, a.role = .axiom → sat J a.formula ρ) ↔
-        ∀ a ∈ leftSide t ΓL, a.role = .spec → sat J a.formula ρ := by
-      unfold assembledPrograms
-      simp only [haxmap, hfilt _ _ _ hisS]
-      rfl
-    have h2 : ∀ a ∈ (assembledPrograms t ΓL ΓR).fwdConclusions, a.role = .axiom → sat J a.formula ρ :=
-      hnoax (rightSide t ΓR)
-    have h3 : ∀ a ∈ (assembledPrograms t ΓL ΓR).fwdPremises, a.role = .conjecture → sat J a.formula ρ :=
-      hnoconj _ (haxroles _)
-    have h4 : (∀ a ∈ (assembledPrograms t ΓL ΓR).fwdConclusions, a.role = .conjecture → sat J a.formula ρ) ↔
-        ∀ a ∈ rightSide t ΓR, a.role = .spec → sat J a.formula ρ := hconj (rightSide t ΓR)
-    rw [h1, h4]
-    rw [← hStL, ← hStR, hsplitL, hsplitR]
-    constructor
-    · rintro ⟨⟨⟨hu, hla, hra⟩, hls, _⟩, hn⟩
-      exact ⟨hu, ⟨hla, hls⟩, hra, fun hall => hn ⟨hstableC, h3, hall.2⟩⟩
-    · rintro ⟨hu, ⟨hla, hls⟩, hra, hn⟩
-      exact ⟨⟨⟨hu, hla, hra⟩, hls, h2⟩, fun hall => hn ⟨hra, hall.2.2⟩⟩
-  have famB : (∃ P ∈ (mkProblem "backward_problem" [(assembledPrograms t ΓL ΓR).stable,
-        (assembledPrograms t ΓL ΓR).bwdPremises, [], (assembledPrograms t ΓL ΓR).bwdConclusions]).decompose
-        t.decomposition, Refutes J ρ P) ↔
-      (∀ a ∈ t.userGuide.formulas, a.role = .assumption → sat J a.formula ρ) ∧
-      Stable t.program t.userGuide.inputs (restrictTo (ext t.program.preds t.userGuide.inputs)
-        (renamedInterp (t.specPrivate.filter (· ∈ t.progPrivate)) J.pred)) J.fc ∧
-      (∀ a ∈ leftSide t ΓL, a.role = .assumption → sat J a.formula ρ) ∧
-      ¬ Stable PL t.userGuide.inputs (restrictTo (ext PL.preds t.userGuide.inputs) J.pred) J.fc := by
-    rw [hB]
-    simp only [List.forall_mem_cons, List.not_mem_nil, false_imp_iff, implies_true, and_true, true_and]
-    rw [hstable]
-    have h1 : (∀ a ∈ (assembledPrograms t ΓL ΓR).bwdPremises, a.role = .axiom → sat J a.formula ρ) ↔
-        ∀ a ∈ rightSide t ΓR, a.role = .spec → sat J a.formula ρ := by
-      unfold assembledPrograms
-      simp only [haxmap, hfilt _ _ _ hisS]
-    have h2 : ∀ a ∈ (assembledPrograms t ΓL ΓR).bwdConclusions, a.role = .axiom → sat J a.formula ρ :=
-      hnoax (leftSide t ΓL)
-    have h3 : ∀ a ∈ (assembledPrograms t ΓL ΓR).bwdPremises, a.role = .conjecture → sat J a.formula ρ :=
-      hnoconj _ (haxroles _)
-    have h4 : (∀ a ∈ (assembledPrograms t ΓL ΓR).bwdConclusions, a.role = .conjecture → sat J a.formula ρ) ↔
-        ∀ a ∈ leftSide t ΓL, a.role = .spec → sat J a.formula ρ := hconj (leftSide t ΓL)
-    rw [h1, h4]
-    rw [← hStL, ← hStR, hsplitL, hsplitR]
-    constructor
-    · rintro ⟨⟨⟨hu, hla, hra⟩, hrs, _⟩, hn⟩
-      exact ⟨hu, ⟨hra, hrs⟩, hla, fun hall => hn ⟨hstableC, h3, hall.2⟩⟩
-    · rintro ⟨hu, ⟨hra, hrs⟩, hla, hn⟩
-      exact ⟨⟨⟨hu, hla, hra⟩, hrs, h2⟩, fun hall => hn ⟨hla, hall.2.2⟩⟩
-  rw [hps]
-  have hmemP : ∀ P, P ∈ assembledProblems (assembledPrograms t ΓL ΓR) {} t.decomposition t.direction ↔
-      ((t.direction = .universal ∨ t.direction = .forward) ∧
-        P ∈ (mkProblem "forward_problem" [(assembledPrograms t ΓL ΓR).stable,
-          (assembledPrograms t ΓL ΓR).fwdPremises, [], (assembledPrograms t ΓL ΓR).fwdConclusions]).decompose t.decomposition) ∨
-      ((t.direction = .universal ∨ t.direction = .backward) ∧
-        P ∈ (mkProblem "backward_problem" [(assembledPrograms t ΓL ΓR).stable,
-          (assembledPrograms t ΓL ΓR).bwdPremises, [], (assembledPrograms t ΓL ΓR).bwdConclusions]).decompose t.decomposition) := by
-    intro P
-    unfold assembledProblems
-    simp only [List.mem_append]
-    have e1 : ∀ ax, outlineProblems "forward" ax ({} : ProofOutline).forwardLemmas = [] := fun _ => rfl
-    have e2 : ∀ ax, outlineProblems "backward" ax ({} : ProofOutline).backwardLemmas = [] := fun _ => rfl
-    constructor
-    · rintro (hP | hP)
-      · split at hP
-        · rename_i hd
-          rw [e1] at hP
-          exact Or.inl ⟨hd, by simpa using hP⟩
-        · cases hP
-      · split at hP
-        · rename_i hd
-          rw [e2] at hP
-          exact Or.inr ⟨hd, by simpa using hP⟩
-        · cases hP
-    · rintro (⟨hd, hP⟩ | ⟨hd, hP⟩)
-      · left; rw [if_pos hd, e1]; simpa using hP
-      · right; rw [if_pos hd, e2]; simpa using hP
-  constructor
-  · rintro ⟨P, hP, href⟩
-    rcases (hmemP P).mp hP with ⟨hd, hP⟩ | ⟨hd, hP⟩
-    · obtain ⟨hu, h1, h2, h3⟩ := famF.mp ⟨P, hP, href⟩
-      exact ⟨hu, Or.inl ⟨hd, h1, h2, h3⟩⟩
-    · obtain ⟨hu, h1, h2, h3⟩ := famB.mp ⟨P, hP, href⟩
-      exact ⟨hu, Or.inr ⟨hd, h1, h2, h3⟩⟩
-  · rintro ⟨hu, ⟨hd, h1, h2, h3⟩ | ⟨hd, h1, h2, h3⟩⟩
-    · obtain ⟨P, hP, href⟩ := famF.mpr ⟨hu, h1, h2, h3⟩
-      exact ⟨P, (hmemP P).mpr (Or.inl ⟨hd, hP⟩), href⟩
-    · obtain ⟨P, hP, href⟩ := famB.mpr ⟨hu, h1, h2, h3⟩
-      exact ⟨P, (hmemP P).mpr (Or.inr ⟨hd, hP⟩), href⟩
 
 end Anthem
